@@ -114,6 +114,7 @@ func simParams(r *simrt.Rand, c *Cfg, pf *Profile) {
 	if c.MaxSteps == 0 {
 		c.MaxSteps = 150000
 	}
+	c.ConcForm = pick(r, []int{0, 0, 1, 2, 3})
 }
 
 // generate builds a configuration and a program from a profile.
@@ -590,7 +591,32 @@ func init() {
 				pf.WKinds = []int{wkPlain}
 				pf.QKinds = []int{qkPers, qkPersPrio}
 			}
-			second := r.Chance(35)
+			persistent := len(pf.QKinds) > 0 && pf.QKinds[0] == qkPers
+			undecodable := !persistent && r.Chance(10)
+			if undecodable {
+				// entries the worker cannot decode are dropped by the dispatcher: that shortens
+				// the queue like a cancelled job does, and may be the last event there is. On the
+				// distributed kinds (an entry that appears in the backend is announced), without
+				// purges (see above).
+				pf.WKinds = []int{wkPlain}
+				pf.QKinds = []int{qkDist, qkDistPrio}
+				pf.Cancellers = [2]int{0, 0}
+				pf.Waiters = [2]int{1, 2}
+			}
+			cancelHeavy := !persistent && !undecodable && r.Chance(15)
+			if cancelHeavy {
+				// the last thing the dispatcher touches is a cancelled job it drops, while the
+				// last running job completes: whoever brings the in-flight count to zero must
+				// wake the parked barrier callers
+				pf.Conc = []int{2, 2, 3}
+				pf.Producers, pf.Adds = [2]int{1, 2}, [2]int{2, 4}
+				pf.Cancellers, pf.CancelOps = [2]int{1, 2}, [2]int{1, 3}
+				pf.Cancel = []wop{{opCloseJob, 1}}
+				pf.Waiters = [2]int{1, 2}
+				pf.Ctrl = []wop{{opWUF, 4}, {opPause, 2}, {opResume, 3}}
+				pf.GatedPct, pf.DelayPct = 0, 60
+			}
+			second := !cancelHeavy && r.Chance(35)
 			if second {
 				// barrier calls on an already paused worker and from two callers at once
 				pf.Ctrl = []wop{{opWUF, 3}, {opPauseAndWait, 4}, {opPause, 3}, {opStop, 1}, {opWaitAndStop, 1}, {opResume, 3}, {opRestart, 1}}
@@ -603,6 +629,14 @@ func init() {
 					ops = append(ops, Op{K: pickW(r, []wop{{opPauseAndWait, 5}, {opPause, 2}, {opStop, 1}, {opResume, 2}})})
 				}
 				p.Tasks = append(p.Tasks, ops)
+			}
+			if undecodable {
+				for i, n := 0, 1+r.Intn(2); i < n && len(p.Tasks) > 0; i++ {
+					t := r.Intn(len(p.Tasks))
+					pos := r.Intn(len(p.Tasks[t]) + 1)
+					op := Op{K: opInject, Q: 0, A: r.Intn(5)}
+					p.Tasks[t] = append(p.Tasks[t][:pos:pos], append([]Op{op}, p.Tasks[t][pos:]...)...)
+				}
 			}
 			return c, p
 		},
@@ -622,7 +656,7 @@ func init() {
 			pf.Conc = []int{1, 1, 2, 3, 4}
 			pf.Producers, pf.Adds = [2]int{1, 3}, [2]int{2, 8}
 			pf.DelayPct, pf.MaxDelay = 20, 2
-			pf.Ctrl = []wop{{opPause, 2}, {opPauseAndWait, 4}, {opStop, 2}, {opWaitAndStop, 1}, {opResume, 4}, {opRestart, 3}, {opSettle, 2}}
+			pf.Ctrl = []wop{{opPause, 2}, {opPauseAndWait, 4}, {opStop, 2}, {opWaitAndStop, 1}, {opResume, 4}, {opRestart, 3}, {opSettle, 2}, {opBind, 1}}
 			pf.CtrlOps = [2]int{1, 8}
 			pf.CtrlGapPct = 50
 			switch r.Intn(10) {
@@ -722,7 +756,7 @@ func init() {
 		},
 	})
 	// C17 — counters
-	register(&Property{ID: "C17", Rule: "episodes with >=3 counter samples taken while submissions/dispatch/completions were in progress plus >=1 at-rest sample; distinct = schedule/program hash",
+	register(&Property{ID: "C17", Pre: c17Pre, Rule: "raw-queue layer (12 % of the budget): 2-4 simulated clients enqueue/dequeue/purge/Len on one real Queue/PriorityQueue, every Len within [0, enqueues invoked]; worker layer: episodes with >=3 counter samples taken while submissions/dispatch/completions were in progress plus >=1 at-rest sample; distinct = schedule/program hash",
 		Gen: func(r *simrt.Rand, tier string) (Cfg, *Program) {
 			pf := baseProfile()
 			pf.QKinds = allKinds
@@ -754,9 +788,17 @@ func init() {
 	register(&Property{ID: "C02", Rule: "episodes in which the number of simultaneously executing worker functions reached the concurrency limit at least once; distinct = schedule/program hash",
 		Gen: func(r *simrt.Rand, tier string) (Cfg, *Program) {
 			pf := baseProfile()
-			pf.Conc = []int{1, 1, 2, 2, 3, 4, 0}
+			pf.Conc = []int{1, 1, 2, 2, 3, 4, 0, -3}
 			pf.Adds = [2]int{3, 10}
 			pf.GatedPct, pf.DelayPct = 80, 20
+			if r.Chance(15) {
+				// jobs announced by a distributed backend: every notification is handled on the
+				// notifier's goroutine, several at once, next to the dispatcher
+				pf.WKinds = []int{wkPlain}
+				pf.QKinds = []int{qkDist, qkDistPrio}
+				pf.Producers = [2]int{2, 4}
+				pf.Conc = []int{1, 2, 2, 3}
+			}
 			pf.Ctrl = []wop{{opTune, 8}, {opPause, 1}, {opResume, 2}, {opRestart, 1}, {opSettle, 2}}
 			pf.CtrlOps = [2]int{1, 6}
 			pf.CtrlGapPct = 40
